@@ -95,6 +95,23 @@ Proof.
 Qed.
 Print Assumptions C09_count_is_max.
 
+(** Whole histories.  If, after the history [t], no EVENT with id [id] is in
+    flight — every submission was answered by every child before the next
+    one with that id came ([idle_ev], the guard along the whole history) —
+    the client has received exactly as many OKs for [id] as it submitted
+    EVENTs with that id; and likewise for COUNT. *)
+Theorem C09_ok_count_equals_event_count : forall n id t,
+  (2 <= n)%nat -> trace_ok n t -> idle_ev n id t ->
+  count_occ_b (is_ok_out id) (outs (init n) t) = count_occ_b (is_cevent_of id) t.
+Proof. intros n id t Hn. apply ok_count_equals_event_count. lia. Qed.
+Print Assumptions C09_ok_count_equals_event_count.
+
+Theorem C09_count_count_equals_request_count : forall n sub t,
+  (2 <= n)%nat -> trace_ok n t -> idle_cnt n sub t ->
+  count_occ_b (is_count_out sub) (outs (init n) t) = count_occ_b (is_ccount_of sub) t.
+Proof. intros n sub t Hn. apply count_count_equals_request_count. lia. Qed.
+Print Assumptions C09_count_count_equals_request_count.
+
 (** the guard, read off the history, is what the windows need: no slot vector
     is held for an id that is not in flight *)
 Theorem C09_idle_means_no_slot : forall n id pre,
